@@ -142,7 +142,8 @@ Inductive tb_ans :=
 | TaNat (n : N)
 | TaBool (b : bool)
 | TaIdx (r : res N)
-| TaAddr (r : res addr).
+| TaAddr (r : res addr)
+| TaTrap.   (* the getter trapped although it cannot (sentinel printed by the harness; never produced by the model) *)
 
 Definition tb_answer (c : tb_cfg) (s : tb_state) (q : tb_query) : tb_ans :=
   match q with
@@ -160,5 +161,6 @@ Definition tb_ans_eqb (a b : tb_ans) : bool :=
   | TaBool x, TaBool y => Bool.eqb x y
   | TaIdx x, TaIdx y => res_eqb N.eqb x y
   | TaAddr x, TaAddr y => res_eqb N.eqb x y
+  | TaTrap, TaTrap => true
   | _, _ => false
   end.
